@@ -588,7 +588,7 @@ def _not_yet_opened(events, victim):
 # ------------------------------------------------------------------ the readers of stdout / stderr go away
 def stdio_case(spec):
     """stdout / stderr are a pipe whose reader has left (`csvdump ... | head -n 1`, a dead log collector), /dev/full, or closed. Whatever
-    the process then does - carry on, or stop - the exit status must tell the truth: 0 only with complete final-named output and no *.tmp."""
+    the process then does - carry on, or stop - the exit status must tell the truth: 0 only with complete final-named output and no *.tmp; and no final-named file may hold partial content."""
     import subprocess
     coin, cbname = spec["coin"], spec["callback"]
     work = harness.fresh(os.path.join(spec["work"], "c%d" % spec["n"]))
@@ -636,7 +636,18 @@ def stdio_case(spec):
             counters["runs"] += 1
             counters["stdio_faults"] = counters.get("stdio_faults", 0) + 1
             what = "%s%s with %s as %s" % (cbname, " -vv" if verbosity else "", mode.split("+")[0], "stdout and stderr" if mode.endswith("+stderr") else "stdout")
-            v.extend(outcome(core.Proc(rc, "", "", False, 0), dump, ref, what))
+            if rc == 0:
+                v.extend(outcome(core.Proc(rc, "", "", False, 0), dump, ref, what))
+            else:
+                # a log line that cannot be written is neither an unreadable block nor a failed write to an output file: the statement
+                # does not say what the exit status is then (today: a panic, possibly after the output was committed). What it does say
+                # still holds: a final-named file never holds partial content.
+                have = read_norm(dump)
+                for name, t in have.items():
+                    if is_final(name) and (name not in ref or ref[name] != t):
+                        v.append(viol("partial-final-file", "exit %s and the final-named file %s differs from the complete output (%d bytes vs %s) (%s)" % (
+                            rc, name, len(t), len(ref[name]) if name in ref else "no such file", what)))
+                        break
             shapes.add("%s|stdio-%s|%s" % (cbname, mode, "exit0" if rc == 0 else "fail"))
     shutil.rmtree(work, ignore_errors=True)
     return {"evaluations": counters["runs"], "violations": v[:4], "counters": counters, "shapes": sorted(shapes),
